@@ -238,4 +238,26 @@ example :
     enabled true c 1 = true := by
   decide
 
+/-- K10. Why ONE critical section per snapshot matters (the boundary of K4).  A reader that takes the lock twice —
+`[acq, read, rel, acq, read, rel]`: every read is guarded, the program is well bracketed, all of K1–K7 apply to it — can have a
+writer's whole critical section between its two reads: under the schedule below the trace (newest first) shows the reader's
+second `read` after the writer's `write`, which comes after the reader's first `read`.  Holding the lock is therefore not
+enough for a consistent snapshot; the reads must lie in one section (`reads_contiguous`).  (This is the shape
+`TypedTree.save` had before `fix:` af3addc — kinds collected in one section, nodes written in another — and the shape that the
+preemption enumeration of the correspondence looks for in the running code.) -/
+theorem split_snapshot_tears :
+    let reader : Prog := [.acq, .read, .rel, .acq, .read, .rel]
+    Guarded reader ∧ Guarded (writer 1) ∧
+    (run true (Cfg.init [reader, writer 1]) [0, 0, 0, 1, 1, 1, 0, 0, 0]).trace.map (fun x => (x.1, x.2.1))
+      = [(0, .rel), (0, .read), (0, .acq), (1, .rel), (1, .write), (1, .acq), (0, .rel), (0, .read), (0, .acq)] ∧
+    finished (run true (Cfg.init [reader, writer 1]) [0, 0, 0, 1, 1, 1, 0, 0, 0]) = true := by
+  intro reader
+  refine ⟨?_, ?_, ?_, ?_⟩
+  · show guardedFrom 0 reader = true
+    decide
+  · show guardedFrom 0 (writer 1) = true
+    decide
+  · decide
+  · decide
+
 end Nutree.C18
